@@ -267,6 +267,62 @@ def AState.run (s : AState) : List Tok → Option AState
 
 def AState.init : AState := {}
 
+/-! ### errors.go: pointerSuffixError and the pointer part of wrapSyntacticError -/
+
+theorem lastIndexByte_lt (c : UInt8) : ∀ (l : Bytes) (i : Nat), lastIndexByte c l = some i → i < l.length
+  | [], i, h => by simp [lastIndexByte] at h
+  | b :: rest, i, h => by
+    simp only [lastIndexByte] at h
+    split at h
+    · rename_i j hj
+      have := lastIndexByte_lt c rest j hj
+      simp only [Option.some.injEq] at h; subst h; simp; omega
+    · split at h
+      · simp only [Option.some.injEq] at h; subst h; simp
+      · cases h
+
+/-- `wrapWithObjectName`: `reversePointer = appendEscapePointerName(append(reversePointer, '/'), name)`
+where `name = jsonwire.UnquoteMayCopy(quotedName)` is passed in unquoted. -/
+def wrapWithObjectName (rev name : Bytes) : Bytes := appendEscapePointerName (rev ++ [cSlash]) name
+
+/-- `wrapWithArrayIndex`: `reversePointer = strconv.AppendUint(append(reversePointer, '/'), index, 10)`. -/
+def wrapWithArrayIndex (rev : Bytes) (idx : Nat) : Bytes := rev ++ [cSlash] ++ decimal idx
+
+/-- `pointerSuffixError.appendPointer(pointer)`: `for len(bi) > 0 { i := bytes.LastIndexByte(bi, '/');
+bi, bo = bi[:i], append(bo, bi[i:]...) }` — `none` is the slice-bounds panic for `i = -1`. -/
+def appendPointer (bi bo : Bytes) : Option Bytes :=
+  if _h : bi = [] then some bo else
+    match _hl : lastIndexByte cSlash bi with
+    | none => none
+    | some i => appendPointer (bi.take i) (bo ++ bi.drop i)
+termination_by bi.length
+decreasing_by
+  have := lastIndexByte_lt cSlash bi i _hl
+  simp only [List.length_take]; omega
+
+/-- The JSONPointer computed by `wrapSyntacticError(state, err, pos, where)`:
+`suffix` is `Some reversePointer` when `err` is a `*pointerSuffixError`;
+`mismatch` says `state` is a `*decoderState` and (the unwrapped) `err == errMismatchDelim`. -/
+def wrapSyntacticErrorPtr (s : AState) (wh : Int) (suffix : Option Bytes) (mismatch : Bool) : Option Bytes :=
+  match appendStackPointer s [] wh with
+  | none => none
+  | some ptr0 =>
+    match (match suffix with
+           | some rev => appendPointer rev ptr0
+           | none => some ptr0) with
+    | none => none
+    | some ptr =>
+      if mismatch then
+        match s.stack with
+        | last :: _ :: _ =>                       -- len(d.Tokens.Stack) > 0
+          if last.len > 0 then
+            if last.isArray then some (parent ptr)                 -- problem is with parent array
+            else if !last.needObjectName then some (parent ptr)    -- problem is with parent object
+            else some ptr                                          -- the stack pointer already is the parent object
+          else some ptr
+        | _ => some ptr
+      else some ptr
+
 /-! ### StackDepth / StackIndex (decode.go:1181-1209, encode.go:956-984) -/
 
 /-- `StackDepth()`: `Tokens.Depth() - 1`. -/
